@@ -294,7 +294,11 @@ class State:
                     in_carry = carry
                     all_values = const_vals + jtu.tree_leaves((in_carry, scanned_in))
                     # Apply state transformation to the body
-                    body_result, body_state = state(body_fun)(*all_values)
+                    # The body runs under the namespaces that enclose the scan.
+                    inner = State(
+                        collected_state={}, namespace_stack=list(self.namespace_stack)
+                    )
+                    body_result, body_state = inner.eval(body_fun, *all_values)
                     # Split the body result back into carry and scan parts
                     out_carry, out_scan = split_list(
                         jtu.tree_leaves(body_result), [num_carry]
